@@ -35,7 +35,7 @@ def rand_perm(rng, n):
 
 def gen(R, n):
     """matrix as exact rationals of floats + kind tag"""
-    kind = R.rng.choice(["dyadic", "dyadic", "uniform", "generic", "scaled_dyadic", "conic_int"])
+    kind = R.rng.choice(["dyadic", "dyadic", "uniform", "generic", "scaled_dyadic", "conic_int", "scaled_generic", "scaled_uniform"])
     k = R.rng.randint(1, min(6, max(1, n * n // 2)))
     perms = [rand_perm(R.rng, n) for _ in range(k)]
     if kind == "dyadic":
@@ -55,6 +55,14 @@ def gen(R, n):
         xs = [R.rng.random() + 0.05 for _ in range(k)]
         s = sum(xs)
         ws = [Fraction(x / s) for x in xs]
+    elif kind in ("scaled_generic", "scaled_uniform"):
+        scale = R.rng.choice([3, 7.5, 100, 10000])
+        if kind == "scaled_generic":
+            xs = [R.rng.random() + 0.05 for _ in range(k)]
+            s0 = sum(xs)
+            ws = [Fraction(x / s0 * scale) for x in xs]
+        else:
+            ws = [Fraction(float(scale) / k)] * k
     elif kind == "scaled_dyadic":
         scale = R.rng.choice([2, 8, 1024, 10000])
         ws = [Fraction(R.rng.randint(1, 16), 16) * scale for _ in range(k)]
@@ -66,7 +74,7 @@ def gen(R, n):
             X[i][p[i]] += w
     # what the implementation sees are floats: round once, so the model gets exactly the same numbers
     Xf = [[Fraction(float(x)) for x in row] for row in X]
-    exact = all(Xf[i][j] == X[i][j] for i in range(n) for j in range(n)) and kind != "generic" and kind != "uniform"
+    exact = all(Xf[i][j] == X[i][j] for i in range(n) for j in range(n)) and kind in ("dyadic", "scaled_dyadic", "conic_int")
     return Xf, kind, exact
 
 
